@@ -7,6 +7,7 @@ import (
 	"sort"
 	"strings"
 	"testing"
+	mbft "verifharness/model/bft"
 
 	"pgregory.net/rapid"
 
@@ -28,6 +29,7 @@ type blk struct {
 	dump   [][2][]byte // BFT state after this block
 	sPrev  uint32      // state: maxHeightPrevoted after this block
 	sPrec  uint32      // state: maxHeightPrecommitted after this block
+	model  *mbft.Model // independent LIP-0058 counting along the path from the genesis to this block
 }
 
 func (b *blk) isAncestorOf(x *blk) bool {
@@ -49,21 +51,21 @@ func (b *blk) ancestorAt(h uint32) *blk {
 }
 
 type world struct {
-	t        *rapid.T
-	n        int
-	batch    int
-	weights  []uint64
-	byz      []bool
-	addrs    [][]byte
-	sim      *bftsim.Sim
-	blocks   []*blk
-	genesis  *blk
-	known    []map[int]bool // per validator: known block ids
-	cur      []*blk         // per honest validator: current tip
-	maxGen   []uint32       // per validator: largest height generated (honest bookkeeping)
-	genOn    []map[int]uint32 // per Byzantine validator: largest height generated per chain tip lineage (by block id of its last block)
-	change   *paramChange
-	hist     []string
+	t           *rapid.T
+	n           int
+	batch       int
+	weights     []uint64
+	byz         []bool
+	addrs       [][]byte
+	sim         *bftsim.Sim
+	blocks      []*blk
+	genesis     *blk
+	known       []map[int]bool   // per validator: known block ids
+	cur         []*blk           // per honest validator: current tip
+	maxGen      []uint32         // per validator: largest height generated (honest bookkeeping)
+	genOn       []map[int]uint32 // per Byzantine validator: largest height generated per chain tip lineage (by block id of its last block)
+	change      *paramChange
+	hist        []string
 	byzAccepted int
 }
 
@@ -105,6 +107,26 @@ func (w *world) newBlock(parent *blk, gen int, mhg uint32, byz bool) *blk {
 	b := &blk{id: len(w.blocks), parent: parent, h: h.H, gen: gen, mhg: mhg, mhp: h.MHP, byz: byz, dump: w.sim.Dump()}
 	b.sPrev, b.sPrec, _ = w.sim.Heights()
 	w.blocks = append(w.blocks, b)
+	// What a view reports as prevoted and as final must be backed by quorums of distinct validators under the counting rules:
+	// the same path through the independent transcription of LIP-0058 (a view that counts a validator twice finalizes early,
+	// which only a rare fork tree turns into a visible conflict).
+	b.model = parent.model.Clone()
+	if err := b.model.Apply(w.addrs[gen], mhg, h.MHP, false, 0); err != nil {
+		w.t.Fatalf("reference model rejects header of block %d: %v\n%s", b.id, err, strings.Join(w.hist, "\n"))
+	}
+	if ch != nil {
+		var vals []mbft.Val
+		for _, v := range ch.Vals {
+			vals = append(vals, mbft.Val{Addr: v.Addr, Weight: v.Weight})
+		}
+		if err := b.model.SetParams(vals, ch.Precommit, ch.Cert); err != nil {
+			w.t.Fatalf("reference model rejects the parameter change: %v", err)
+		}
+	}
+	if b.sPrev != b.model.MHP || b.sPrec != b.model.MHPC {
+		w.t.Fatalf("view after block #%d (h=%d, v%d on #%d) reports prevoted=%d precommitted=%d, the counting rules give %d and %d: finality not backed by a quorum of distinct validators\n%s",
+			b.id, b.h, gen, parent.id, b.sPrev, b.sPrec, b.model.MHP, b.model.MHPC, strings.Join(w.hist, "\n"))
+	}
 	// per-path sanity LIP-0058 guarantees
 	if b.sPrec > b.sPrev && b.sPrec != w.genesis.h {
 		w.t.Fatalf("precommitted %d above prevoted %d at block %d\n%s", b.sPrec, b.sPrev, b.id, strings.Join(w.hist, "\n"))
@@ -234,7 +256,17 @@ func explore(t *rapid.T, sc scenario) (conflict string, nontrivial bool, w *worl
 	if err := w.sim.Genesis(0, w.params(w.weights, tau)); err != nil {
 		t.Fatalf("genesis: %v", err)
 	}
-	g := &blk{id: 0, dump: w.sim.Dump()}
+	g := &blk{id: 0, dump: w.sim.Dump(), model: mbft.New(w.batch, 0)}
+	{
+		p0 := w.params(w.weights, tau)
+		var vals []mbft.Val
+		for _, v := range p0.Vals {
+			vals = append(vals, mbft.Val{Addr: v.Addr, Weight: v.Weight})
+		}
+		if err := g.model.SetParams(vals, p0.Precommit, p0.Cert); err != nil {
+			t.Fatalf("reference model rejects the genesis parameters: %v", err)
+		}
+	}
 	w.genesis = g
 	w.blocks = []*blk{g}
 	// optional weight change at one height (same on every branch), keeping the fault bound for the new set as well
